@@ -33,6 +33,10 @@ def jobs(tier):
     for i, (base, free) in enumerate(gen.windows(3, tier)):
         for t in (1, 2) if tier == "quick" else (1, 2, 3):
             J.append(dict(k=3, t=t, free=free, base=base, dtype="bool" if (i + t) % 2 else "int"))
+    base, free = gen.cycle_window3()
+    for t in (1, 2):
+        J.append(dict(k=3, t=t, free=free, base=base, dtype="int"))
+    J.append(dict(side="seq"))
     for k in (3, 4):
         for base, free in gen.road_windows(k):
             for t in (1, 2):
@@ -42,12 +46,42 @@ def jobs(tier):
 
 def bounds(tier):
     js = jobs(tier)
-    return {"k=1": "all 16 masks x t=1..4 x {int,bool}", "k=2": "%d windows of %d free bits" % (len(gen.windows(2, tier)), len(gen.windows(2, tier)[0][1])),
+    js = [j for j in js if j.get("side") != "seq"]
+    return {"k=1": "all 16 masks x t=1..4 x {int,bool}", "history": "one sequence of 8 calls with observed lengths 2,3,2,1,3,2,1,2 in one process", "k=2": "%d windows of %d free bits" % (len(gen.windows(2, tier)), len(gen.windows(2, tier)[0][1])),
             "k=3": "%d windows of %d free bits" % (len(gen.windows(3, tier)), len(gen.windows(3, tier)[0][1])),
             "masks_explored": sum(2 ** len(j["free"]) for j in js), "many-round masks": "induced dead-end roads of 15 (k=3) and 26 (k=4) vertices", "outside": "masks outside the windows, k >= 4"}
 
 
+SEQ = [(2, [0, 1, 1, 0, 1, 0, 0, 1, 1, 0, 0, 1, 0, 1, 1, 0], 1), (3, [1 if (v * 7 + 3) % 5 else 0 for v in range(64)], 1),
+       (2, [0, 1, 1, 0, 1, 0, 0, 1, 1, 0, 0, 1, 0, 1, 1, 0], 1), (1, [1, 1, 0, 1], 1), (3, [1 if (v * 7 + 3) % 5 else 0 for v in range(64)], 2),
+       (2, [1] * 16, 2), (1, [1, 1, 0, 1], 2), (2, [1, 1, 0, 0, 1, 1, 0, 0, 0, 0, 0, 0, 0, 0, 0, 0], 1)]
+
+
+def body_seq(e, L, cfg):
+    """history: calls with different observed lengths / masks in ONE process must each equal the oracle (memo keys, cached successors)."""
+    from symx import symnp
+    symnp.WHERE_POLICY = "concrete"
+    try:
+        for i, (k, mask, t) in enumerate(SEQ):
+            keep = gen.gfp(k, mask, t)
+            try:
+                vs, acc = L.connect_coding_graph(k, symnp.array(mask), t)
+                rows = gen.concrete_rows(acc)
+            except ValueError:
+                rows = None
+            except Exception as ex:
+                rows = "exc:" + type(ex).__name__
+            exp = gen.induced(k, keep) if any(keep) else None
+            if rows != exp:
+                return {"status": "viol", "why": "call %d of the sequence (k=%d, t=%d) differs from the oracle" % (i, k, t), "cex": {"kind": "gen_seq", "upto": i}}
+    finally:
+        symnp.WHERE_POLICY = "symlen"
+    return {"status": "ok", "sample": {"sequence": [(k, t) for k, _, t in SEQ]}}
+
+
 def body(e, L, cfg):
+    if cfg.get("side") == "seq":
+        return body_seq(e, L, cfg)
     return gen.body_exact(e, L, cfg)
 
 
